@@ -188,6 +188,7 @@ type Obligation struct {
 	Expect   string // "unsat" normally; "sat" for cover checks
 	Bounded  bool
 	Props    []string
+	Uses     []string
 	Model    map[string]Term
 	// result
 	scriptText string
@@ -243,6 +244,25 @@ func (w *World) posStr(p token.Pos) string {
 }
 
 func (ex *Exec) addOb(st *State, kind, name, src string, pos token.Pos, goal Term) {
+	// a conjunction is discharged conjunct by conjunct (smaller queries)
+	if strings.HasPrefix(goal.S, "(and ") {
+		if parts := splitSexp(goal.S); len(parts) > 2 {
+			for _, p := range parts[1:] {
+				ex.addOb(st, kind, name, src, pos, Term{p, SBool})
+			}
+			return
+		}
+	}
+	if strings.HasPrefix(goal.S, "(=> ") {
+		if parts := splitSexp(goal.S); len(parts) == 3 && strings.HasPrefix(parts[2], "(and ") {
+			if cs := splitSexp(parts[2]); len(cs) > 2 {
+				for _, c := range cs[1:] {
+					ex.addOb(st, kind, name, src, pos, Term{"(=> " + parts[1] + " " + c + ")", SBool})
+				}
+				return
+			}
+		}
+	}
 	if goal.S != "true" {
 		for _, a := range st.pc {
 			if a.S == goal.S {
@@ -258,7 +278,7 @@ func (ex *Exec) addOb(st *State, kind, name, src string, pos token.Pos, goal Ter
 		return
 	}
 	ob := &Obligation{Name: name, Kind: kind, Func: ex.fn.String(), Pos: ex.w.posStr(pos), Src: src,
-		Assume: append([]Term(nil), st.pc...), Goal: goal, Trace: append([]string(nil), st.trace...), Expect: "unsat", Props: ex.fc.Props, Bounded: ex.fc.Bound > 0}
+		Assume: append([]Term(nil), st.pc...), Goal: goal, Trace: append([]string(nil), st.trace...), Expect: "unsat", Props: ex.fc.Props, Bounded: ex.fc.Bound > 0, Uses: ex.fc.Uses}
 	ex.obs = append(ex.obs, ob)
 }
 
@@ -311,9 +331,9 @@ func (ex *Exec) addrMods(addr ssa.Value, li *loopInfo) {
 	switch a := addr.(type) {
 	case *ssa.FieldAddr:
 		st := deref(a.X.Type())
-		if _, ok := st.Underlying().(*types.Struct); ok {
+		if _, ok := asStruct(st); ok {
 			ft := st.Underlying().(*types.Struct).Field(a.Field).Type()
-			if _, isStruct := ft.Underlying().(*types.Struct); isStruct {
+			if _, isStruct := asStruct(ft); isStruct {
 				ex.typeMods(ft, li)
 				return
 			}
@@ -342,7 +362,7 @@ func (ex *Exec) addrMods(addr ssa.Value, li *loopInfo) {
 			}
 		}
 		if elem != nil {
-			if _, isStruct := elem.Underlying().(*types.Struct); isStruct {
+			if _, isStruct := asStruct(elem); isStruct {
 				ex.typeMods(elem, li)
 				return
 			}
@@ -356,10 +376,10 @@ func (ex *Exec) addrMods(addr ssa.Value, li *loopInfo) {
 
 func (ex *Exec) typeMods(t types.Type, li *loopInfo) {
 	w := ex.w
-	if st, ok := t.Underlying().(*types.Struct); ok {
+	if st, ok := asStruct(t); ok {
 		for i := 0; i < st.NumFields(); i++ {
 			ft := st.Field(i).Type()
-			if _, isStruct := ft.Underlying().(*types.Struct); isStruct {
+			if _, isStruct := asStruct(ft); isStruct {
 				ex.typeMods(ft, li)
 				continue
 			}
@@ -927,7 +947,7 @@ func (ex *Exec) fieldAddr(base Term, structT types.Type, idx int) Term {
 		return t
 	}
 	ft := f.Type()
-	if _, isStruct := ft.Underlying().(*types.Struct); isStruct {
+	if _, isStruct := asStruct(ft); isStruct {
 		w.addr[t.S] = &Addr{Kind: "struct", Base: t}
 		return t
 	}
@@ -960,7 +980,7 @@ func (ex *Exec) loadBound(h *Heap, addr Term, t types.Type) int {
 
 func (ex *Exec) load(st *State, h *Heap, addr Term, t types.Type) Term {
 	w := ex.w
-	if stt, ok := t.Underlying().(*types.Struct); ok {
+	if stt, ok := asStruct(t); ok {
 		fs := make([]Term, stt.NumFields())
 		for i := range fs {
 			fs[i] = ex.load(st, h, ex.fieldAddr(addr, t, i), stt.Field(i).Type())
@@ -1007,7 +1027,7 @@ func (ex *Exec) roGlobalVal(g *ssa.Global) Term {
 func (ex *Exec) store(st *State, addr Term, val Term, t types.Type) {
 	w := ex.w
 	h := st.heap
-	if stt, ok := t.Underlying().(*types.Struct); ok {
+	if stt, ok := asStruct(t); ok {
 		for i := 0; i < stt.NumFields(); i++ {
 			ex.store(st, ex.fieldAddr(addr, t, i), w.StructGet(t, val, i), stt.Field(i).Type())
 		}
